@@ -325,6 +325,14 @@ func (e *Evaluator) step(vals map[ssa.Value]Val, v ssa.Value, pred *ssa.BasicBlo
 		return e.get(vals, x.X)
 	case *ssa.Alloc, *ssa.MakeSlice, *ssa.MakeMap, *ssa.MakeClosure, *ssa.FieldAddr, *ssa.IndexAddr:
 		return Val{K: Ref}
+	case *ssa.Slice:
+		// re-slicing keeps nil-ness: a[:] of an array pointer or of a non-nil slice is non-nil
+		if a := e.get(vals, x.X); a.K == Ref || a.K == Nil {
+			if _, isStr := x.X.Type().Underlying().(*types.Basic); !isStr {
+				return a
+			}
+		}
+		return Val{}
 	case *ssa.Extract:
 		if t, ok := vals[tupleKey{x.Tuple, x.Index}]; ok {
 			return t
